@@ -69,11 +69,67 @@ func executorScope(p *Program) []*ssa.Function {
 // clientCursor: the cursor value of fn (parameter) if any.
 func clientCursor(fn *ssa.Function) ssa.Value {
 	for _, p := range fn.Params {
-		if isCursorType(p.Type()) {
+		if isCursorType(p.Type()) && (cursorParamSet == nil || cursorParamSet[p]) {
 			return p
 		}
 	}
 	return nil
+}
+
+// cursorParamSet: the *proto.Array parameters that receive the client's argument array — the
+// executors' own parameter and every parameter it is handed on to — as opposed to arrays taken
+// from a handler's reply.
+var cursorParamSet map[*ssa.Parameter]bool
+
+func computeCursorParams(p *Program) {
+	set := map[*ssa.Parameter]bool{}
+	var work []*ssa.Parameter
+	add := func(par *ssa.Parameter) {
+		if par != nil && isCursorType(par.Type()) && !set[par] {
+			set[par] = true
+			work = append(work, par)
+		}
+	}
+	execs, _ := p.executors()
+	for _, e := range execs {
+		for _, par := range e.Fn.Params {
+			add(par)
+		}
+	}
+	// the functions between the parsed request and the executors
+	for _, fn := range p.RepoFuncs(pkgRedis) {
+		if !inFramework(fn) || fn.Signature.Recv() == nil || !strings.HasSuffix(fn.Signature.Recv().Type().String(), "redis.Server") {
+			continue
+		}
+		if res := fn.Signature.Results(); res.Len() == 2 && strings.HasSuffix(res.At(0).Type().String(), "redis.Message") && isErrorType(res.At(1).Type()) {
+			for _, par := range fn.Params {
+				add(par)
+			}
+		}
+	}
+	for len(work) > 0 {
+		par := work[len(work)-1]
+		work = work[:len(work)-1]
+		if par.Referrers() == nil {
+			continue
+		}
+		for _, r := range *par.Referrers() {
+			ci, ok := r.(ssa.CallInstruction)
+			if !ok {
+				continue
+			}
+			callee := staticCallee(ci.Common())
+			if callee == nil || !inRepo(callee) {
+				continue
+			}
+			for i, a := range ci.Common().Args {
+				if a == ssa.Value(par) && i < len(callee.Params) {
+					add(callee.Params[i])
+				}
+			}
+		}
+	}
+	cursorParamSet = set
 }
 
 // extractionCalls lists calls in fn that read client arguments: reads on the client cursor and
